@@ -10,6 +10,11 @@
     1f72dc6); the star-count conjunct assumes type names contain no `*` (C identifiers); the conjunct about
     the WRITTEN attribute (`GIRWriter._write_type` falls back to the plain ctype when the complete one is
     empty) assumes the spelling is not empty (a nameless base type without qualifiers or pointer levels).
+  * `C02_transfer_alias_partial`: `links.length = 1 ∨ links.head? = some true` — the returned type is a typedef
+    of the fundamental itself, or its first typedef is a pointer to a const pointee.  For a typedef of a
+    typedef the real code computes NO default (`_get_transfer_default_return` looks at the first alias' own
+    target only): witness `C02_transfer_alias_counterexample`, full statement `C02_transfer_alias_full`
+    (finding reported by harness/c02.py, PENDING_FINDINGS).
   * `C02_callbacks`: none for the grouping; the written closure/destroy INDEX equals the position of
     the user-data / destroy parameter when no earlier parameter has the same name (C forbids duplicate
     parameter names).
@@ -297,6 +302,97 @@ theorem C02_callable_defaults_keep (p : Param) (t : Transfer) (h : p.transfer = 
   unfold paramDefault
   simp [h]
 
+/-! ### returned typedef chains (aliases) -/
+
+/-- What `lookup_typenode` shows of a typedef chain: `links` is the `is_const` of each typedef's own target
+    type, outermost typedef first (`typedef const char *FooStr; typedef FooStr FooStr2;` is `[false, true]`),
+    `f` the fundamental at its end.  Only the FIRST link is visible: its target's constness, and the
+    fundamental only when the chain has length one (a longer chain's first target carries a giname). -/
+def chainTarget (links : List Bool) (f : Str) : Option Target :=
+  match links with
+  | [] => none
+  | [c] => some (.alias (some f) c)
+  | c :: _ => some (.alias none c)
+
+/-- the type of a value declared with the outermost typedef name `g` of the chain -/
+def chainTy (g : Str) (links : List Bool) (f : Str) : TyInfo :=
+  { fundamental := none, giname := some g, node := chainTarget links f, callbackName := none, ctype := g,
+    isConst := false, isVarargs := false }
+
+/-- the statement's default for a returned value of such a type: const anywhere along the chain makes it a
+    returned const value (none); otherwise it is what the fundamental at the end of the chain gets (basic
+    types and untyped pointers none, non-const strings full) -/
+def documentedChainDefault (links : List Bool) (f : Str) : Option Transfer :=
+  if links.any id then some .none
+  else transferDefaultReturnBasic
+    { fundamental := some f, giname := none, node := none, callbackName := none, ctype := [], isConst := false,
+      isVarargs := false }
+
+/-- The statement at full strength for returned typedef'd types: every chain gets the documented default. -/
+def C02_transfer_alias_full : Prop :=
+  ∀ (g : Str) (links : List Bool) (f : Str) (ctor : Bool) (d : Option Direction) (ca : Bool), links ≠ [] →
+    transferDefault .return_ ctor d ca (chainTy g links f) = .ok (documentedChainDefault links f)
+
+theorem chainTy_basic (g : Str) (links : List Bool) (f : Str) :
+    isEquivNone (chainTy g links f) = false ∧ transferDefaultReturnBasic (chainTy g links f) = none := by
+  have hn : isEquivNone (chainTy g links f) = false := by simp [isEquivNone, isEquivFund, chainTy]
+  have hb : isEquivBasicGir (chainTy g links f) = false := by simp [isEquivBasicGir, isEquivFund, chainTy]
+  have ha : isEquivAny (chainTy g links f) = false := by simp [isEquivAny, isEquivFund, chainTy]
+  have hs : isEquivFund (chainTy g links f) stringName = false := by simp [isEquivFund, chainTy]
+  have hc : (chainTy g links f).isConst = false := rfl
+  refine ⟨hn, ?_⟩
+  unfold transferDefaultReturnBasic
+  simp [hn, hb, ha, hs, hc]
+
+/-- Proved for the chains the code handles: a typedef of the fundamental itself (length one: const ⇒ none,
+    basic type / untyped pointer ⇒ none, non-const string ⇒ full), and any chain whose FIRST typedef is a
+    pointer to a const pointee.  Extra hypothesis: `links.length = 1 ∨ links.head? = some true`. -/
+theorem C02_transfer_alias_partial (g : Str) (links : List Bool) (f : Str) (ctor : Bool) (d : Option Direction)
+    (ca : Bool) (h : links.length = 1 ∨ links.head? = some true) :
+    transferDefault .return_ ctor d ca (chainTy g links f) = .ok (documentedChainDefault links f) := by
+  obtain ⟨hn, hb⟩ := chainTy_basic g links f
+  rw [transferDefault_return ctor d ca _ hn rfl]
+  unfold transferDefaultReturn
+  rw [hb]
+  match links, h with
+  | [c], _ =>
+    cases c
+    · simp [chainTy, chainTarget, documentedChainDefault]
+    · simp [chainTy, chainTarget, documentedChainDefault, transferDefaultReturnBasic]
+  | true :: _ :: _, _ =>
+    simp [chainTy, chainTarget, documentedChainDefault, transferDefaultReturnBasic]
+  | false :: _ :: _, h => simp at h
+  | [], h => simp at h
+
+/-- The excluded chains are real: when the first typedef's target is another typedef (and not a pointer to
+    const), NO default is computed, whatever the chain ends in — `typedef const char *FooStr; typedef FooStr
+    FooStr2; FooStr2 f(void);` gets no transfer-ownership although it returns a const value (finding reported
+    by harness/c02.py). -/
+theorem C02_transfer_alias_counterexample :
+    (∀ (g : Str) (l : Bool) (rest : List Bool) (f : Str) (ctor : Bool) (d : Option Direction) (ca : Bool),
+      transferDefault .return_ ctor d ca (chainTy g (false :: l :: rest) f) = .ok none) ∧
+    documentedChainDefault [false, true] "utf8".toList = some .none ∧
+    documentedChainDefault [false, false] "gint".toList = some .none ∧
+    documentedChainDefault [false, false] "utf8".toList = some .full ∧
+    ¬ C02_transfer_alias_full := by
+  have hnone : transferDefaultReturnBasic
+      { fundamental := none, giname := none, node := none, callbackName := none, ctype := [], isConst := false,
+        isVarargs := false } = none := by decide +kernel
+  have h1 : ∀ (g : Str) (l : Bool) (rest : List Bool) (f : Str) (ctor : Bool) (d : Option Direction) (ca : Bool),
+      transferDefault .return_ ctor d ca (chainTy g (false :: l :: rest) f) = .ok none := by
+    intro g l rest f ctor d ca
+    obtain ⟨hn, hb⟩ := chainTy_basic g (false :: l :: rest) f
+    rw [transferDefault_return ctor d ca _ hn rfl]
+    unfold transferDefaultReturn
+    rw [hb]
+    simp [chainTy, chainTarget, hnone]
+  have h2 : documentedChainDefault [false, true] "utf8".toList = some .none := by decide +kernel
+  refine ⟨h1, h2, by decide +kernel, by decide +kernel, ?_⟩
+  intro hfull
+  have := hfull "Foo.Str2".toList [false, true] "utf8".toList false none false (by simp)
+  rw [h1, h2] at this
+  cases this
+
 /-! ### untyped pointers are nullable -/
 
 theorem C02_nullable_gpointer (ty : TyInfo) (d : Option Direction) (n : Bool) (h : isEquivAny ty = true) :
@@ -449,6 +545,14 @@ example : (createTypeFromBase (.array Qual.plain (.ptr Qual.plain (.typedef ⟨t
 example : canonicalize "char**".toList = "utf8*".toList ∧ canonicalize "FooBar**".toList = "FooBar**".toList ∧
     canonicalize "unsigned long*".toList = "gulong*".toList := by decide +kernel
 example : lookup ("char".toList ++ ['*']) = some "utf8".toList ∧ lookup "FooBar".toList = none := by decide +kernel
+example : (transferDefault .return_ false none false (chainTy "Foo.Str".toList [true] "utf8".toList)).toOption
+    = some (some .none) ∧
+    (transferDefault .return_ false none false (chainTy "Foo.Buf".toList [false] "utf8".toList)).toOption
+    = some (some .full) ∧
+    (transferDefault .return_ false none false (chainTy "Foo.Alias".toList [false] "gint".toList)).toOption
+    = some (some .none) ∧
+    (transferDefault .return_ false none false (chainTy "Foo.X".toList [true, false] "utf8".toList)).toOption
+    = some (some .none) := by decide +kernel
 example : (markUserData (mkP "user_data" gp)).closure = some "user_data".toList := by decide +kernel
 example : commonNullable gp none false = true := by decide +kernel
 
